@@ -187,6 +187,40 @@ def run(ctx):
                           expected='no proposal leaves the input unchanged, no chain of proposals leads back to an input already visited, every proposal is delivered in bounded time',
                           finding_key=('cycle:' + '+'.join(sorted(set(f['chain'])))) if 'cycle' in f['kind'] else None,
                           how_to_replay='./check C03 --replay <file>')
+    # delivery time: terms nested in one operand position, with an innermost operand whose sort is or is not inferable;
+    # every filter/mutations call must return within a bound that does not depend exponentially on the depth
+    def chain(op, depth, inner, first=True, extra='1'):
+        t = inner
+        for _ in range(depth):
+            t = f'({op} {t} {extra})' if first else f'({op} {extra} {t})'
+        return t
+    D = 60 if ctx.thorough else 36
+    nests = []
+    for inner in ('(f x)', 'u', '(let ((k x)) k)', 'x'):
+        for op, extra in (('+', '1'), ('-', ''), ('*', '2'), ('bvadd', '#b0001'), ('and', 'true'), ('ite c', 'x'), ('str.++', '"a"'), ('=', 'x')):
+            for first in (True, False):
+                nests.append('(set-logic ALL)\n(declare-fun f (Int) Int)\n(declare-const x Int)\n(declare-const c Bool)\n(assert (distinct '
+                             + chain(op, D, inner, first, extra) + ' x))\n(check-sat)\n')
+    rng.shuffle(nests)
+    slow = 0
+    for text in nests[:(len(nests) if ctx.thorough else 16)]:
+        exprs = impl.parse(text)
+        t0 = time.time()
+        n = 0
+        for p_ in P.enumerate_proposals(exprs, time_limit=5):
+            n += 1
+            if p_.get('error') == 'hang':
+                slow += 1
+                ctx.violation('impl-violation', input=text, finding='hang', chain=[p_['cls']], detail=str(p_['node'])[:200],
+                              observed=f"{p_['cls']} did not deliver its proposals for a node of a {D}-fold nested term within 5 s "
+                                       f"({len(text)} bytes of input)",
+                              expected='every proposal is delivered in time bounded by a small function of the input size')
+                break
+        ctx.case(['nest', text], n >= 10)
+        ctx.count('deeply nested inputs (delivery time)')
+        if time.time() - t0 > 60 and not slow:
+            ctx.violation('impl-violation', input=text, finding='slow', chain=[], observed=f'enumerating the proposals of a {len(text)}-byte input took {time.time() - t0:.0f} s',
+                          expected='time bounded by a small function of the input size')
     ctx.count('first-level proposals', tot['proposals'])
     ctx.count('second/third-level proposals', tot['explored'])
     # real runs: whole-input revisits are reported by ddSMT's own --check-loops; non-termination by the watchdog
